@@ -610,6 +610,12 @@ func RunProperty(opt Options) int {
 		"solver":                        solverName(opt) + " (persistent process, push/pop per query)",
 		"explanation":                   "bounded symbolic execution of the real SSA of /repo; every assertion is one SMT query over all values inside the stated bounds",
 	}
+	for _, res := range results {
+		if res.Job.H.PO {
+			cov["explanation"] = "sequential parts: bounded symbolic execution of the real SSA of /repo, every assertion one SMT query; interleavings: per-thread symbolic executions of the same SSA turned into event DAGs, one SMT formula per query (safety / quiescence / unwinding / witness / race) whose models are exactly the sequentially consistent interleavings inside the stated bounds; a SAT answer is re-executed sequentially over one shared heap before it is reported"
+			break
+		}
+	}
 	if len(samples) == 0 {
 		cov["samples"] = []interface{}{"no assertion reached"}
 	}
